@@ -677,3 +677,18 @@ func verifC09Rank(rx, ry, rz int) {}
 //@             any && len(res.Values) == old(len(res.Values)) && (forall i int :: 0 <= i < len(res.Values) ==> res.Values[i] == old(res.Values[i]))
 //@   ensures old(len(res.Values)) > 0 && (forall i int :: 0 <= i < old(len(res.Values)) ==> !den(f.match, res, i)) ==> !any && len(res.Values) == 0
 //@   ensures len(res.Values) <= old(len(res.Values))
+
+// ParseWithUnit: the projection gets one more field, ".unit", with the next
+// free index, and that field is what is returned (C14: tables are keyed by it).
+//@ func (p *ProjectionParser) ParseWithUnit(projection string, filter *Filter) (proj *Projection, f *Field, err error)
+//@   props C14
+//@   opt allocates
+//@   ensures err != nil ==> proj == nil && f == nil
+//@   ensures err == nil ==> proj != nil && f != nil && proj.unitField == f && f.Name == ".unit" && f.proj == proj && !f.IsTuple && f.idx >= 0
+
+//@ func (p *ProjectionParser) Parse(projection string, filter *Filter) (proj *Projection, err error)
+//@   trusted
+//@   opt allocates
+//@   ensures err == nil ==> proj != nil && fresh(proj) && proj.root != nil && fresh(proj.root) && proj.root.idx == -1 && proj.nFields >= 0 &&
+//@             (proj.root.Sub == nil || fresh(proj.root.Sub)) && (proj.row == nil || fresh(proj.row))
+//@   ensures err != nil ==> proj == nil
